@@ -285,13 +285,17 @@ Inductive hop :=
 | HRegister (d : data) (ts1 iv1 ts2 iv2 : bytes)   (* processRegister: mint both ids, store, prime the caches *)
 | HRemove (sid : N)                                (* removeSession *)
 | HLookup (r : role) (id : bytes)                  (* GetSessionByResumeId / GetSessionByPublicId *)
-| HResume (id : bytes).                            (* hello with resumeid *)
+| HResume (id : bytes)                             (* hello with resumeid *)
+| HDecode (r : role) (id : bytes).                 (* decodePrivateSessionId / decodePublicSessionId: the hub's
+                                                      decoder of a role, as its callers (lookups, the resume branch
+                                                      of processHello, recipients of messages) use it *)
 
 Inductive hout :=
 | HIds (priv pub : bytes)      (* the ids handed to the client *)
 | HFailed                      (* registration answered with an error *)
 | HNone                        (* nothing to observe *)
-| HFound (sid : N) | HNotFound.
+| HFound (sid : N) | HNotFound
+| HData (d : data) | HNoData.  (* what the hub's decoder returned: the data, or nil *)
 
 Definition hub_step (ks : keyset) (h : hub) (o : hop) : hub * hout :=
   match o with
@@ -323,6 +327,9 @@ Definition hub_step (ks : keyset) (h : hub) (o : hop) : hub * hout :=
   | HResume id =>
       let '(h', o) := hub_lookup ks Private h id in
       (h', match o with Some sid => HFound sid | None => HNotFound end)
+  | HDecode r id =>
+      let '(h', o) := hub_decode ks r h id in
+      (h', match o with Some d => HData d | None => HNoData end)
   end.
 
 End Model.
@@ -331,4 +338,5 @@ Arguments oracles : clear implicits.
 Arguments keyset : clear implicits.
 Arguments hub : clear implicits.
 Arguments hop : clear implicits.
+Arguments hout : clear implicits.
 Arguments lru : clear implicits.
